@@ -15,6 +15,7 @@ from fractions import Fraction
 
 from ..core import frac
 from .. import c11_fdr as _fdrx   # round 5: FDRThres as written (op fdr_cdf)
+from .. import c11_hmm_methods as _hmmx   # round 5: state tables of every hmm method branch (op hmm_states)
 
 LEVEL = "proof"
 RULE = ("component ops: one call of HaarConv / FindLocalPeaks / FDRThres / UnifyLevels / SegmentByPeaks / haarSeg per "
@@ -597,6 +598,7 @@ def gen_cases(rng, tier):
     import random as _random
     xr = _random.Random(rng.getrandbits(64))
     ext = gen_conv_w_step(xr, sizes["cw"]) + gen_haarseg_w(xr, sizes["hsw"]) + gen_idx(xr, sizes["idx"])
+    ext += _hmmx.gen()
     ext += _fdrx.gen_fdr_cdf(_random.Random(xr.getrandbits(64)), sizes["fz"])   # after the older extension ops: their draws stay as they were
     cases += gen_fl64(rng, sizes["fl"])
     cases += gen_conv(rng, sizes["conv"])
@@ -876,6 +878,8 @@ def run_impl(case):
     op, i = case["op"], case["in"]
     if op == "fdr_cdf":
         return _fdrx.run_impl(case)
+    if op == "hmm_states":
+        return _hmmx.run_impl(case, _cna)
     if op == "fl64":
         return frac(float(Fraction(i["x"])))
     if op == "haar_conv":
@@ -1099,6 +1103,8 @@ def to_line(case, impl):
     err = isinstance(impl, dict) and "__error__" in impl
     if op == "fdr_cdf":
         return _fdrx.to_line(case, impl)
+    if op == "hmm_states":
+        return _hmmx.to_line(case, impl)
     if op == "fl64":
         return {"op": op, "in": i, "impl": None}
     if op == "haar_conv":
@@ -1192,6 +1198,11 @@ def judge(case, impl, resp):
     dis = []
     if op == "fdr_cdf":
         _fdrx.judge(case, impl, resp, spec, dis)
+        return spec, dis, None
+    if op == "hmm_states":
+        _hmmx.judge(case, impl, resp, spec, dis)
+        if not out.get("table_ok"):
+            dis.append("state table of the method is not well-formed (hmmzTableOk)")
         return spec, dis, None
     if op == "fl64":
         if Fraction(impl) != Fraction(out):
